@@ -308,3 +308,23 @@ CHECKS["C18"] = dict(
                  "Tee is not reachable through hlog's public API and is not exercised"],
     require=dict(requests_served=2000),
 )
+
+CHECKS["C05"] = dict(
+    level="exploration",
+    level_text=("runtime monitor over seeded derivation trees (With with 500-byte-straddling fields, With+UpdateContext, Level, Sample, Hook, Output, "
+                "With().Ctx, With().Stack; 6-20 nodes quick, up to 46 thorough) in three creation/use orders (all first; interleaved; re-log the whole "
+                "ancestor chain and the siblings after every derivation): every event of every node is compared with the model of that node's own "
+                "path (fields, hooks, level, stack flag, destination) and every GetCtx value read by hooks and by object marshalers (on the event, "
+                "inside Arr().Object, inside Dict().Object) with the context given to that logger/event or background; batches of events are kept "
+                "open and finalized in permuted order so that pooled events change hands; one tree in ten is also exercised by one goroutine per "
+                "node while children are derived concurrently, and the whole check is repeated under the race detector."),
+    technique="runtime monitoring: per-node derivation-path model compared with every emitted event, GetCtx probes, race detector",
+    stages=lambda tier: [dict(variant="vh", cmd="c05", shards=16, timeout=3000),
+                         dict(variant="vh-race", cmd="c05", shards=16, timeout=3000, race=True, args=["-scale", "0.1"])],
+    rule=("one case = one derivation tree with all its logging rounds; non-trivial = at least 4 nodes; distinct by tree index x seed (trees are "
+          "generated from distinct PRNG streams); counters.events_checked is the number of events judged"),
+    assumptions=["UpdateContext is applied only to a logger just produced by With() (as the statement requires)",
+                 "a Dict()/Arr().Object() event has no Go context of its own, so background is the specified GetCtx value there"],
+    replay=replay_index("c05"),
+    require=dict(events_checked=10000, step_Output=50, concurrent_events_checked=500),
+)
